@@ -272,7 +272,7 @@ pub fn family_d(_tier: Tier) -> Vec<Family> {
         row("a", 1, 1, 30, "a#1"),
         row("ab", 2, 3, 45, "\"l1\nl2\",ab"),
         row("abc", 3, 2, 50, "abc "),
-        row("c", 2, 2, 20, ""),
+        row("c", 2, 2, 20, "C:\\new\\notes"),
         row("a", 3, 1, 31, "a#2,x"),
         row("b", 1, 3, 28, "#b\tx"),
     ];
@@ -330,6 +330,10 @@ pub fn family_d(_tier: Tier) -> Vec<Family> {
     let b3 = lex_bigram(3, 4, 4);
     let (nr, nl, t) = b3.table();
     mk("D/raw-K3", nr, nl, t, ConnKind::Raw, Some(b3));
+    // single feature-pair costs beyond 16 bits (the raw connector keeps 32-bit costs)
+    let b3big = lex_bigram_scaled(3, 4, 4, 3000);
+    let (nr, nl, t) = b3big.table();
+    mk("D/raw-K3-costs-beyond-16-bits", nr, nl, t, ConnKind::Raw, Some(b3big));
     let b9 = lex_bigram(9, 4, 4);
     let (nr, nl, t) = b9.table();
     mk("D/dual-K9", nr, nl, t.clone(), ConnKind::Dual, Some(b9.clone()));
